@@ -73,7 +73,17 @@ def flag_sets(ctx, s, fn, var):
             continue
         cs = or_constants(v, K)
         if cs is None:
-            other.append((b, i, v))
+            # `flags |= done` where `done` was chosen per arm from constants: one set per arm, under that arm's facts
+            exp = _or_of_joined_constants(an, v, K)
+            if exp is None:
+                other.append((b, i, v))
+            else:
+                for enode, c in exp:
+                    if c == 0:
+                        continue
+                    bits = [1 << j for j in range(c.bit_length()) if c >> j & 1]
+                    eb = an.cfg.edges[enode - an.cfg.nblocks].src
+                    sets.append((eb, None, bits, ctx.E.facts(fn, enode)))
         else:
             sets.append((b, i, cs, ctx.E.facts(fn, b)))
     if init is None and K[0] == "field":
@@ -83,6 +93,38 @@ def flag_sets(ctx, s, fn, var):
                     an.stmt_loc.get(next(k_ for k_, vv in an.stmt_val.items() if vv is v)) == K[1]:
                 init = v[2][K[2]][1]
     return K, init, sets, other
+
+
+def _or_of_joined_constants(an, v, K):
+    """for v = flags | x with x a join of constants (possibly through nested joins): [(edge node, constant)], else None"""
+    if not (v[0] == "bin" and v[1] == "BitOr"):
+        return None
+    a, b = v[2], v[3]
+    isk = lambda x: (x[0] == "phi" and x[2] == K) or x == ("init", K)
+    x = b if isk(a) else (a if isk(b) else None)
+    if x is None or x[0] != "phi":
+        return None
+    out = []
+
+    def rec(p, depth):
+        if depth > 12:
+            return False
+        for e in an.cfg.in_edges[p[1]]:
+            st = an.out_state.get(e.src)
+            if st is None:
+                continue
+            w = an.read(st, p[2])
+            if w[0] == "const":
+                out.append((e.node, w[1]))
+            elif w[0] == "phi" and w != p:
+                if not rec(w, depth + 1):
+                    return False
+            elif w[0] == "bin" and w[1] == "BitOr" and w[2][0] == "const" and w[3][0] == "const":
+                out.append((e.node, w[2][1] | w[3][1]))
+            else:
+                return False
+        return True
+    return out if rec(x, 0) and out else None
 
 
 def dup_tested(facts, k, c):
@@ -145,7 +187,7 @@ def member_flags(ctx, s, parser, var, names_expected, final_mask_check=True):
                 if bs and nm is None:
                     nm = bs[0]
         tested = [c for c in cs if dup_tested(facts, k, c)]
-        sp = fn.blocks[b]["stmts"][i]["sp"]
+        sp = fn.blocks[b]["stmts"][i]["sp"] if i is not None else fn.blocks[b]["term"]["sp"]
         desc = (nm or b"?").decode("latin1").rstrip('"')
         if nm is not None:
             for c in tested or cs[-1:]:
@@ -222,7 +264,7 @@ def reader_before_flag(ctx, s, parser, var, table):
             good += s.ok_edges_of_call(fn, rb)
         # restrict to reader calls inside this arm: dominated by the same starts_with edge
         ok = bool(good) and any(an.cfg.dominates(g, b) for g in good)
-        sp = fn.blocks[b]["stmts"][i]["sp"]
+        sp = fn.blocks[b]["stmts"][i]["sp"] if i is not None else fn.blocks[b]["term"]["sp"]
         s.add("S-DOM", fn, "reader-before-flag", nm.decode().rstrip('"'), sp, PROVED if ok else VIOLATION,
               "the member counts as seen only after %s succeeded" % "/".join(r.split("::")[-1] for r in readers) if ok else
               "the %s flag can be set without its value having been read" % nm.decode().rstrip('"'), b)
